@@ -360,7 +360,11 @@ def run_case(case):
             counters['finalizer_calls_checked'] += 1
             if len(fin_calls) != 1:
                 add('finalizer_calls', 'finalizer fired %d times' % len(fin_calls), 'finalizer/calls')
-            elif fin_calls[0] != (total, total):
+            elif fin_calls[0] != (total, total) and not (
+                    # a later step that stops reading a resource early: the rows it left behind pass the finalizer but
+                    # never reach the counting step placed after it
+                    any(sp['op'] == 'user' and sp['fn'] in ('u_rows_first2', 'u_rows_break3') for sp in suffix)
+                    and fin_calls[0][0] == total and fin_calls[0][1] <= total):
                 add('finalizer_early', 'finalizer fired when %d of %d rows had reached it and %d had passed it'
                     % (fin_calls[0][0], total, fin_calls[0][1]), 'finalizer/timing')
     nontrivial = (bool(discards) or p < len(specs)) and total >= 1
